@@ -90,8 +90,20 @@ def loop() -> asyncio.AbstractEventLoop:
 
 
 def run(coro):
-    """run a coroutine to completion on the process-wide loop (each run gets a copy of the current context)"""
-    return loop().run_until_complete(coro)
+    """
+    Run a coroutine to completion on the process-wide loop (each run gets a copy of the current context).
+    When one awaitable of an asyncio.gather raises (e.g. the documented NotImplementedError of the validation), its
+    siblings keep running as orphaned tasks; they are cancelled and drained here so that no task outlives a case.
+    """
+    event_loop = loop()
+    try:
+        return event_loop.run_until_complete(coro)
+    finally:
+        pending = [task for task in asyncio.all_tasks(event_loop) if not task.done()]
+        for task in pending:
+            task.cancel()
+        if pending:
+            event_loop.run_until_complete(asyncio.gather(*pending, return_exceptions=True))
 
 
 def call(func, *args, **kwargs):
